@@ -268,6 +268,12 @@ def run(repo, chk):
     Ident = tok['Ident']
     chk.expect(Ident('x').flavor is Flavor.NONE and Ident.you('x').flavor is Flavor.YOU
                and Ident.defeat('x').flavor is Flavor.DEFEAT, 'C06.L1', 'Ident constructors', '', TOKENS)
+    # identifiers of different flavours are different names (function tables are keyed by Ident)
+    ids = [Ident('f'), Ident.you('f'), Ident.defeat('f'), Ident('g')]
+    distinct = all((a == b) == (i == j) for i, a in enumerate(ids) for j, b in enumerate(ids))
+    same = Ident('f', Flavor.YOU) == Ident.you('f') and hash(Ident('f', Flavor.YOU)) == hash(Ident.you('f')) and len({*ids, Ident('f')}) == 4
+    chk.expect(distinct and same, 'C06.L1', 'Ident equality / hashing', 'f, @f and !f must be three different keys; equal idents hash equally', TOKENS)
+    chk.expect([i.name for i in ids[:3]] == ['f', '@f', '!f'], 'C06.L1', 'Ident.name', f'{[i.name for i in ids[:3]]}', TOKENS)
     # flavors property tabulated over all 32 contexts
     for v in range(32):
         c = cf.BC(v)
